@@ -881,6 +881,48 @@ func isSuccessReturnPS(in ssa.Instruction) bool {
 	if isNilConst(v) {
 		return true
 	}
+	// an error that was made on the spot is no success
+	switch t := v.(type) {
+	case *ssa.MakeInterface:
+		return false
+	case *ssa.Call:
+		if f := t.Common().StaticCallee(); f != nil && f.Pkg != nil {
+			if pp := f.Pkg.Pkg.Path(); (pp == "fmt" && f.Name() == "Errorf") || (pp == "errors" && f.Name() == "New") {
+				return false
+			}
+		}
+	}
+	// a named result that lives in a slot (the function defers something): what was stored into the slot last, in the
+	// block of the return, decides — `err = fmt.Errorf(...); return` is a refusal
+	if u, ok := v.(*ssa.UnOp); ok && u.Op == token.MUL {
+		if al, isAl := u.X.(*ssa.Alloc); isAl {
+			var last ssa.Value
+			for _, x := range in.Block().Instrs {
+				if x == ssa.Instruction(u) {
+					break
+				}
+				if st, isSt := x.(*ssa.Store); isSt && st.Addr == ssa.Value(al) {
+					last = st.Val
+				}
+			}
+			if last != nil {
+				if isNilConst(last) {
+					return true
+				}
+				switch t := last.(type) {
+				case *ssa.MakeInterface:
+					return false
+				case *ssa.Call:
+					if f := t.Common().StaticCallee(); f != nil && f.Pkg != nil {
+						if pp := f.Pkg.Pkg.Path(); (pp == "fmt" && f.Name() == "Errorf") || (pp == "errors" && f.Name() == "New") {
+							return false
+						}
+					}
+				}
+				v = resolveSpill(last)
+			}
+		}
+	}
 	for _, b := range fn.Blocks {
 		if len(b.Instrs) == 0 {
 			continue
@@ -890,8 +932,22 @@ func isSuccessReturnPS(in ssa.Instruction) bool {
 			continue
 		}
 		ct, ok := decodeIf(ifi)
-		if !ok || resolveSpill(ct.V) != v {
+		if !ok {
 			continue
+		}
+		sameSlot := false
+		if resolveSpill(ct.V) != v {
+			// two loads of one named-result slot (a function that defers reloads its results at every return) with no
+			// store to the slot between the test and the return
+			lu, ok1 := v.(*ssa.UnOp)
+			cu, ok2 := ct.V.(*ssa.UnOp)
+			if !ok1 || !ok2 || lu.Op != token.MUL || cu.Op != token.MUL || lu.X != cu.X {
+				continue
+			}
+			if _, isAl := lu.X.(*ssa.Alloc); !isAl {
+				continue
+			}
+			sameSlot = true
 		}
 		k := -1
 		switch ct.TrueWhen {
@@ -905,6 +961,23 @@ func isSuccessReturnPS(in ssa.Instruction) bool {
 		}
 		s := b.Succs[k]
 		if len(s.Preds) == 1 && s.Dominates(in.Block()) {
+			if sameSlot {
+				clean := true
+				slot := v.(*ssa.UnOp).X
+				for _, ob := range fn.Blocks {
+					if !s.Dominates(ob) {
+						continue
+					}
+					for _, x := range ob.Instrs {
+						if st, isSt := x.(*ssa.Store); isSt && st.Addr == slot {
+							clean = false
+						}
+					}
+				}
+				if !clean {
+					continue
+				}
+			}
 			return false
 		}
 	}
